@@ -292,6 +292,60 @@ def alignment_sweep(ctx):
     # once per 16384 lengths is expected, so a sweep can also meet none - that is recorded, not judged)
 
 
+def concurrent_stage(ctx):
+    """Four threads decode and re-encode their own lists of valid blobs (of all eleven kinds, some spanning several
+    working buffers) at the same time, on the race-detector build.  Each thread's bytes must equal what a single thread
+    produces for the same blobs; ThreadSanitizer reports any state the codecs share."""
+    from .. import runner, engine_codec as EC
+    ncase = 3 if ctx.tier == "quick" else 30
+    cases = []
+    for k in range(ncase):
+        lists = []
+        for t in range(4):
+            lst = []
+            while len(lst) < 40:
+                kind = ctx.rng.choice(KINDS)
+                try:
+                    v = G.ENCODABLE[kind](ctx.rng, len(lst) % 10 == 3) if kind in ("v2_beat_data", "v2_overview", "v1_beat_data", "v1_high_res", "v1_overview") else G.ENCODABLE[kind](ctx.rng)
+                    blob = EC.ENC[kind](v)
+                except Exception:  # noqa: BLE001
+                    continue
+                lst.append({"kind": kind, "blob": blob.hex()})
+            lists.append(lst)
+        flat = [[it] for lst in lists for it in lst]
+        cases.append({"id": "mtc%d" % k, "no_tz": True, "_n": [len(x) for x in lists],
+                      "ops": [{"op": "mt_codec", "rounds": 1, "lists": [[it for lst in lists for it in lst]]},
+                              {"op": "mt_codec", "rounds": 5, "lists": lists}]})
+
+    def on_result(res):
+        wit = {"kind": "concurrent", "threads": 4}
+        if res.crash:
+            ctx.count()
+            ctx.violation("concurrent-calls " + res.crash["kind"] + " at=" + res.crash["site"],
+                          "decoding and re-encoding on four threads at once: " + res.crash["kind"] + " in " + res.crash["site"] + " :: " +
+                          res.crash.get("stderr", "")[:600].replace("\n", " | "), dict(wit, crash=res.crash["kind"]))
+            return
+        e1, e2 = res.events[0], res.events[1]
+        if "exc" in e1 or "exc" in e2:
+            ctx.fail_harness("concurrent codec stage failed: %s" % (e1.get("exc") or e2.get("exc")))
+            return
+        ctx.bump("concurrent_cases")
+        single = e1["ret"][0]
+        pos = 0
+        for n, out in zip(res.case["_n"], e2["ret"]):
+            ctx.count(n)
+            ctx.bump("concurrent_calls_judged", n)
+            if out != single[pos:pos + n]:
+                ctx.violation("concurrent-calls wrong-answer", "a blob re-encoded while other threads were using the codecs differs from the "
+                              "single-threaded result", wit)
+                return
+            pos += n
+
+    runner.run_cases(cases, cfg="tsan", on_result=on_result, stall_timeout=300)
+    if not ctx.extra.get("concurrent_cases") and not any(k.startswith("concurrent-calls") for k in ctx.viol):
+        ctx.fail_harness("the concurrent stage did not run")
+
+
 def run(ctx):
     n = 400 if ctx.tier == "quick" else 12000
     specs = []
@@ -313,6 +367,7 @@ def run(ctx):
     codec_run.run_items("san", specs, lambda sp, r, c: judge_item(ctx, sp, r, c), batch=60)
     zlib_ladder(ctx)
     alignment_sweep(ctx)
+    concurrent_stage(ctx)
     if len(ctx.extra.get("by_kind", {})) != 11:
         ctx.fail_harness("not all 11 codecs were exercised")
 
@@ -330,6 +385,9 @@ def replay(ctx, doc):
         f = (res.events[1].get("ret") or {}).get("failures") if len(res.events) > 1 else None
         if f:
             ctx.violation("zlib-container-roundtrip-fails alignment-sweep " + f[0]["what"].split(":")[0][:60], f[0]["what"], r)
+        return
+    if r.get("kind") == "concurrent":
+        concurrent_stage(ctx)
         return
     if r.get("kind") == "zlib" and "value" not in r:
         zlib_ladder(ctx)
